@@ -264,6 +264,18 @@ pub fn exec_probe<M: Machine>(tr: &Trace, stats: &mut Stats, known: &BTreeSet<St
             record!(v);
         }
     }
+    // population doubling: a healthy state and its twin are merged with copies of themselves k
+    // times (count = n * 2^k: beyond 2^24, 2^32 and 2^53 - populations that only nested merges
+    // reach) and asked again. Doubling a population leaves the scale of the accumulation space and
+    // the set of distinct records unchanged, so the twin refinement applies as it stands; the
+    // count must be exactly n * 2^k. k is a function of the trace (slot number and count).
+    if fw.has_twin {
+        for i in fw.w.live() {
+            for v in doubling_probe::<M>(&fw, i, &final_confs, stats) {
+                record!(v);
+            }
+        }
+    }
     // conf-major sweep: every live slot is asked the same question in turn (the slot-major loop
     // above never puts two states' identical questions next to each other)
     let live = fw.w.live();
@@ -683,6 +695,55 @@ fn query_checked<M: Machine>(fw: &FWorld<M>, slot: u16, confs: &[u8], stats: &mu
         if let Some(t) = fw.tw.get(slot) {
             viol.extend(twin_check::<M>(fw, slot, s, &t.st, confs, stats));
         }
+    }
+    viol
+}
+
+/// see the call site: the slot and its twin merged with themselves k times, then the twin refinement
+fn doubling_probe<M: Machine>(fw: &FWorld<M>, slot: u16, confs: &[u8], stats: &mut Stats) -> Vec<Violation> {
+    let mut viol = Vec::new();
+    let (Some(s), Some(t)) = (fw.w.get(slot), fw.tw.get(slot)) else { return viol };
+    let n = s.model.count(0);
+    if s.model.poisoned || s.model.soft_poisoned || n < 2 || n > 4096 || M::STREAMS != 1 {
+        return viol;
+    }
+    let k = [3u32, 17, 23, 24, 25, 31, 32, 33, 40, 47][((slot as u64 + n) % 10) as usize];
+    let op = (n % 3) as u8;
+    let mut st = s.st.clone();
+    let mut tw = t.st.clone();
+    for _ in 0..k {
+        let (a, b) = (st.clone(), st.clone());
+        let (ta, tb) = (tw.clone(), tw.clone());
+        let merged = guard(|| (M::merge(a, b, op), <M::Twin as Machine>::merge(ta, tb, op)));
+        match merged {
+            Ok((x, y)) => {
+                st = x;
+                tw = y;
+            }
+            Err(p) => {
+                viol.push(Violation::new("C05", &format!("{}/merge-of-a-state-with-its-copy/panic", M::name()), slot, p));
+                return viol;
+            }
+        }
+    }
+    stats.inc("c05_population_doubling_probes");
+    let want = n << k;
+    let o = M::observe(&st, ObsPlan { confs: &[], unguarded: false });
+    match obs_get(&o, What::Count(0)) {
+        Some(Val::U(g)) if *g == want => {}
+        other => {
+            viol.push(Violation::new("C05", &format!("{}/count-mismatch-after-self-merges", M::name()), slot, format!("{n} observations merged with themselves {k} times: the state reports {:?}, expected {want}", other.map(|v| v.render()))));
+            return viol;
+        }
+    }
+    let tmp = Slot::<M> { st, model: s.model.clone() };
+    for mut v in twin_check::<M>(fw, slot, &tmp, &tw, confs, stats) {
+        if v.invariant.contains("harmonic<=geometric<=arithmetic") {
+            continue;
+        }
+        v.invariant = format!("{}-after-self-merges", v.invariant);
+        v.detail = format!("{n} observations merged with themselves {k} times (count {want}): {}", v.detail);
+        viol.push(v);
     }
     viol
 }
